@@ -1,4 +1,5 @@
 import AlgopyVerif.Proofs.Factor
+import AlgopyVerif.Proofs.EighStep
 /-!
 # C08 — matrix factorizations satisfy their defining equations modulo t^D
 
@@ -17,8 +18,12 @@ That the implementation's output satisfies these step equations is evaluated in 
 generated case (the tie of the theorem's hypotheses to the code), next to the residuals of all
 defining equations.  `lu_defining_equation`: the step of `UTPM.lu`/`lu2` (`F = L₀⁻¹(WᵀA_d − Σ L_{d-i}U_i)U₀⁻¹`,
 `U_d = triu(F)U₀`, `L_d = L₀ tril(F,-1)`) gives `Σ_{k≤d} L_k U_{d-k} = (WᵀA)_d`, with the masks strictly lower /
-upper by construction.  Not proved (partial): triangularity of `R_d`, tall / wide / full QR,
-`eigh` (distinct and repeated eigenvalues), `eig`, `svd` — checked by residuals on the implementation.
+upper by construction.  `eigh_orthogonality`, `eigh_defining_equation`, `eigh_block_structure`: the step of
+`UTPM._eigh1` (`S = -½ Σ Q_kᵀQ_{d-k}`, `K = F + Q₀ᵀA_dQ₀ + SΛ₀ + Λ₀S`, `Λ_d = K` on the clusters of equal eigenvalues,
+`Q_d = Q₀(K∘H + S)`) gives `(QᵀQ)_d = 0` and `(QᵀAQ)_d = Λ_d` — the full symmetric eigendecomposition when the
+eigenvalues of `A₀` are distinct (clusters are singletons), the relaxed block problem otherwise.  Not proved
+(partial): triangularity of `R_d`, tall / wide / full QR, the recursion of `_eigh` over clusters for repeated
+eigenvalues, `eig`, `svd` — checked by residuals on the implementation.
 -/
 open Matrix AV.Factor
 namespace AV.C08
@@ -46,6 +51,35 @@ theorem cholesky_defining_equation (lt : n → n → Prop) [DecidableRel lt]
 theorem lu_defining_equation (lt : n → n → Prop) [DecidableRel lt] (B L U : ℕ → Matrix n n K) (L0inv U0inv : Matrix n n K)
     (d : ℕ) (hd : 1 ≤ d) (hL0 : L 0 * L0inv = 1) (hU0 : U0inv * U 0 = 1) (st : LUStep lt B L U L0inv U0inv d) :
     ∑ k ∈ Finset.range (d + 1), L k * U (d - k) = B d := lu_eq lt B L U L0inv U0inv d hd hL0 hU0 st
+
+/-- `_eigh1`, `QᵀQ = I` at order `d` -/
+theorem eigh_orthogonality (same : n → n → Prop) [DecidableRel same] (A Q L : ℕ → Matrix n n K) (l : n → K)
+    (Hm : Matrix n n K) (d : ℕ) (hd : 1 ≤ d) (h0 : (Q 0)ᵀ * Q 0 = 1) (hA : ∀ k, (A k)ᵀ = A k)
+    (hss : ∀ r c, same r c → same c r) (hH0 : ∀ r c, same r c → Hm r c = 0)
+    (hH1 : ∀ r c, ¬ same r c → Hm r c * (l c - l r) = 1) (st : Eigh1Step same A Q L l Hm d) :
+    ∑ k ∈ Finset.range (d + 1), (Q k)ᵀ * Q (d - k) = 0 :=
+  eigh1_orthogonality hd h0 hA hss hH0 hH1 st
+
+/-- `_eigh1`, `QᵀAQ = Λ` at order `d` (all index triples `i + j + k = d`) -/
+theorem eigh_defining_equation (same : n → n → Prop) [DecidableRel same] (A Q L : ℕ → Matrix n n K) (l : n → K)
+    (Hm : Matrix n n K) (d : ℕ) (hd : 1 ≤ d) (h0 : (Q 0)ᵀ * Q 0 = 1) (hA : ∀ k, (A k)ᵀ = A k)
+    (hA0 : A 0 * Q 0 = Q 0 * Matrix.diagonal l)
+    (hss : ∀ r c, same r c → same c r) (hH0 : ∀ r c, same r c → Hm r c = 0)
+    (hH1 : ∀ r c, ¬ same r c → Hm r c * (l c - l r) = 1) (st : Eigh1Step same A Q L l Hm d) :
+    tripleAll (fun k => (Q k)ᵀ) A Q d = L d :=
+  eigh1_defining hd h0 hA hA0 hss hH0 hH1 st
+
+/-- `Λ_d` is zero outside the clusters (diagonal when the eigenvalues of `A₀` are distinct) -/
+theorem eigh_block_structure (same : n → n → Prop) [DecidableRel same] (A Q L : ℕ → Matrix n n K) (l : n → K)
+    (Hm : Matrix n n K) (d : ℕ) (st : Eigh1Step same A Q L l Hm d) (r c : n) (h : ¬ same r c) : L d r c = 0 :=
+  eigh1_block st r c h
+
+/-- non-vacuity of the `H` hypotheses: distinct eigenvalues `1, 2` with `same = (=)` -/
+example : ∃ Hm : Matrix (Fin 2) (Fin 2) ℚ, (∀ r c, r = c → Hm r c = 0) ∧
+    (∀ r c, ¬ r = c → Hm r c * ((![1, 2] : Fin 2 → ℚ) c - (![1, 2] : Fin 2 → ℚ) r) = 1) :=
+  ⟨!![0, 1; -1, 0], by
+    intro r c h; subst h; fin_cases r <;> simp, by
+    intro r c h; fin_cases r <;> fin_cases c <;> simp at h ⊢ <;> norm_num⟩
 
 /-- the masks used by the LU step: `tril(F,-1)` vanishes on and above the diagonal, `triu(F)` below it -/
 theorem lu_masks (lt : n → n → Prop) [DecidableRel lt] (M : Matrix n n K) (i j : n) :
